@@ -897,16 +897,41 @@ def c19(tier):
     def stratum(p):
         lv = [(l, p["tree"][l]["defect"] == "is_dir") for l in sorted(p["tree"]) if p["tree"][l]["defect"] != "absent"]
         return (p["cfgArg"], tuple(lv), len(p["overrides"]), p["error"], tuple(sorted({o["defect"] for o in p["overrides"]} | {p["tree"][l]["defect"] for l in p["tree"]})))
-    by = {}
-    for p in scen:
-        by.setdefault(stratum(p), []).append(p)
-    chosen = []
-    n = Q(tier, 700, 12000)
-    while len(chosen) < n and any(by.values()):
-        for k in list(by):
-            if by[k]:
-                chosen.append(by[k].pop())
-    chosen = chosen[:n]
+    def pick(scen, stratum, n):
+        by = {}
+        for p in scen:
+            by.setdefault(stratum(p), []).append(p)
+        chosen = []
+        while len(chosen) < n and any(by.values()):
+            for k in list(by):
+                if by[k]:
+                    chosen.append(by[k].pop())
+        return chosen[:n], len(by)
+    chosen, nstrata = pick(scen, stratum, Q(tier, 700, 12000))
+    # the second configuration of the model: defaults written out, and a fourth option standing for all the others
+    r2 = c.mc("CliConfig", "CliConfig_explicit.cfg", workers=8, timeout=3000)
+    scen2 = [p for t, p in r2["replay"]]
+    rnd.shuffle(scen2)
+    TOP = cli.TOP
+    def cls(o, i):
+        return 0 if i == 0 else (2 if i == TOP[o] else 1)
+    def stratum2(p):
+        # per option: what the file that is read says and what the last -C says (not set / a value / the default written out)
+        lv = [l for l in sorted(p["tree"]) if p["tree"][l]["defect"] != "absent"]
+        near = p["argSource"] if p["cfgArg"] == "file" else (p["tree"][lv[-1]] if lv else None)
+        sig = []
+        for o in ("wrap_column", "begin_style", "use_tabs", "other"):
+            last = 0
+            for ov in p["overrides"]:
+                if ov[o]:
+                    last = ov[o]
+            sig.append((cls(o, near[o]) if near and near["defect"] == "none" else 0, cls(o, last)))
+        return (p["cfgArg"], len(lv), tuple(sig))
+    chosen2, nstrata2 = pick(scen2, stratum2, Q(tier, 600, 8000))
+    c.extra["scenarios_in_model_(explicit defaults)"] = len(scen2)
+    c.extra["strata_(explicit defaults)"] = nstrata2
+    by = range(nstrata)
+    chosen = chosen + chosen2
     res = cli.run_scenarios(cli.run_config_scenario, chosen)
     for sc, (problems, skipped) in zip(chosen, res):
         for p in problems:
@@ -918,7 +943,7 @@ def c19(tier):
     c.extra["strata"] = len(by)
     c.samples.append({"scenario": chosen[0]})
     return c.finish(
-        rule="CliConfig.tla: directory chains of depth 2 (thorough 3), at most two pasfmt.toml files anywhere on the chain holding one or two settings or a defect (unknown key / ill-typed value / number outside the option's domain) or being a DIRECTORY of that name (which does not end the search), --config-file in {absent, file, missing, directory}, up to two -C options (valid, duplicate keys, defects); "
+        rule="CliConfig.tla, two configurations (defects; defaults written out + a fourth option that stands for each of the remaining options in turn): directory chains of depth 2 (thorough 3), at most two pasfmt.toml files anywhere on the chain holding one or two settings or a defect (unknown key / ill-typed value in 28 spellings / value the configuration library converts instead of rejecting / number outside the option's domain) or being a DIRECTORY of that name (which does not end the search), --config-file in {absent, file, missing, directory}, up to two -C options (valid, duplicate keys, defects); "
              "every final state is a scenario, stratified by (config-file kind, levels holding a file, number of overrides, error) and materialised: the run must fail without touching the probe file iff the model says error, otherwise the probe's bytes must equal the result of the same effective configuration given entirely by -C in an empty tree")
 
 
